@@ -17,7 +17,7 @@ def register(check, TIERB_NOTE):
           "Seeded search over helper-call histories on every keyed list of the corpus (string, uint32, int64, enum, identityref, union, bool, multi-key "
           "incl. enum+union+int8 keys; plain-map form of ordered lists too), each call checked against a key-tuple -> entry-identity map model: "
           "New/Append reject duplicates (Append also nil keys) without changing the map, GetOrCreate idempotent, Get never creates, Rename moves the "
-          "entry and rewrites its key leaves (renames to keys with an unset enum / union part are injected: refused or obeyed, the map invariant must survive); after every call every entry's key leaves are compared with its map key by the harness's own walker. "
+          "entry and rewrites its key leaves (renames to keys with an unset enum / union part are injected: refused or obeyed, the map invariant must survive); after every call every entry's key leaves are compared with its map key by the harness's own walker, and the map an earlier GetOrCreate<List>Map call returned must still be the list's map. "
           "Helpers are regenerated from YANG by the working tree's generator at check time.",
           "DESIGN.md §5 (Tier B, C34)", TIERB_NOTE,
           "deterministic simulation: seeded operation histories vs executable reference model, rejected-operation injection, ddmin-minimised replay")
@@ -34,7 +34,7 @@ def register(check, TIERB_NOTE):
           "new entries), payloads built by the harness's own TypedValue / RFC 7951 encoders from type-correct generated values; after each successful set the "
           "walker's leaf set may differ from the previous one only in the target leaf and the key leaves of entries created on the way, and GetNode must return "
           "exactly one node holding the value in the leaf's Go type. Ill-typed payloads, unknown paths, missing keys and int_vals beyond the leaf's width (with "
-          "TolerateJSONInconsistencies) are injected as failing operations; in a third of the runs equal-valued leaves of the tree share one pointer "
+          "TolerateJSONInconsistencies) are injected as failing operations, and so are uint_vals for signed leaves (may be refused; if accepted the leaf must hold the value sent); in a third of the runs equal-valued leaves of the tree share one pointer "
           "and leaf-lists of one type one backing array; paths of nodes GetNode returned are kept and must not change. Every execution starts from a simulated process restart.",
           "DESIGN.md §5 (Tier B, C10)", TIERB_NOTE,
           "deterministic simulation: seeded operation histories vs path->value reference model, failing-operation injection, ddmin-minimised replay")
@@ -44,7 +44,7 @@ def register(check, TIERB_NOTE):
           "RFC 7951 encoders, optionally under a common prefix, with overlapping steps inside one request); the recorded effects are applied to a "
           "path -> value reference model in gNMI order and compared (leaf set and ordered-list order) with the harness's walk of the tree after "
           "UnmarshalSetRequest / UnmarshalNotifications. Atomic notifications include empty ones (the subtree at the prefix is replaced by nothing). "
-          "The same container or list entry may be updated twice with different payloads; a quarter of the requests carry IgnoreExtraFields, which must not outlive the call. Requests with one undecodable update, or with a prefix whose target / origin "
+          "The same container or list entry may be updated twice with different payloads; a quarter of the requests carry IgnoreExtraFields, which must not outlive the call and - having no unknown member to ignore - must give the same outcome and tree as the request without it when both are accompanied by PreferShadowPath (applied to two copies). Requests with one undecodable update, or with a prefix whose target / origin "
           "contradicts a path's, are injected as failing operations: they must be rejected.",
           "DESIGN.md §5 (Tier B, C13)", TIERB_NOTE,
           "deterministic simulation: seeded request histories vs gNMI reference model (model-first generation), failing-request injection, ddmin-minimised replay")
@@ -58,7 +58,8 @@ def register(check, TIERB_NOTE):
           "of the steps the two versions share memory the way path-copied (copy-on-write) trees do - equal subtrees are one object, a leaf-list or binary value "
           "that grew or shrank at its end starts at its predecessor's address - which changes no content and must change no answer. Notifications of earlier steps are kept and must still read the same after later Diff calls; a "
           "third of the steps deliver their notifications to a second replica as well; in the fault configuration some steps first call Diff on a version "
-          "that is not schema-conforming, and the call after it is the one that is checked. Every execution starts from a simulated process restart.",
+          "that is not schema-conforming, and the call after it is the one that is checked. One run in twelve uses a schema in which two ordered lists and a leaf share one container "
+          "(known finding C03:shared-container:sibling-lost, recognised narrowly). Every execution starts from a simulated process restart.",
           "DESIGN.md §5 (C03)",
           "Sampling of histories and of delivery orders, not enumeration. Trusted: the harness's walker, its deep clone, the instrumenter's rewrite of map iteration. "
           "Excluded with reason: keyless lists and ordered lists nested in ordered lists (documented as unsupported by ygot).",
